@@ -374,6 +374,17 @@ def obs_key(o):
 
 # ------------------------------------------------------------------ the check
 def run(ctx):
+    # --- coordinator: a reassigned constant is read inside comprehension bodies and conditions as well,
+    #     and a variable holding a lazy value keeps its value after it was displayed
+    _items = [(["pi = 3", "{pi*2 : k in {0}}"], "A:[I:6]", "reassigned pi inside a comprehension body"),
+              (["pi = 3; {pi*2 : k in {0}}"], "A:[I:6]", "reassigned pi inside a comprehension body, one input"),
+              (["true = 0", "{x : x in 1..3, true}"], "A:[]", "reassigned true as a comprehension condition"),
+              (["e = 2", "{e^k : k in 1..3}"], "A:[I:2;I:4;I:8]", "reassigned e inside a comprehension body"),
+              (["false = 1", "{x : x in {5, 6}, false}"], "A:[I:5;I:6]", "reassigned false as a comprehension condition"),
+              (["p = C(5,2)", "p", "p*1"], "I:10", "a variable holding C(5,2), displayed, then multiplied"),
+              (["k = C(10,3)", "k + 0", "k*2"], "I:240", "a variable holding C(10,3), used, then multiplied"),
+              (["f = 5!", "f", "f/4!"], "I:5", "a variable holding 5!, displayed, then divided")]
+    C.expect_sessions(ctx["report"], ctx["rundir"], "C14", _items)
     rep, tier, seed = ctx["report"], ctx["tier"], ctx["seed"]
     rng = random.Random(seed * 7877 + 14)
     quick = tier == "quick"
